@@ -411,6 +411,27 @@ class Facts:
                 self.family(g, depth - 1, seen)
         return list(seen.values())
 
+    def home(self, fn, depth=0):
+        """the function a construct belongs to in the normalised program: `fn` itself (closures count as their parent),
+        or - when `fn` is a private helper that did not exist in the pinned tree and has a single caller - the home of
+        that caller.  Keys of per-function censuses name the home, so that extracting a method neither moves a triaged
+        site nor a known finding."""
+        import re
+        q = re.sub(r'::\{closure#\d+\}', '', fn.qname)
+        base = self.fn(q) or fn
+        if self.known_fns is None or depth >= 3 or q in self.known_fns or q in self.aliases.values() or base.d.get('vis') == 'Public' or base.d.get('impl_trait'):
+            return base
+        cs = set()
+        for c in self.callers().get(base.id, ()):
+            cq = re.sub(r'::\{closure#\d+\}', '', self.fns[c].qname)
+            if cq != q:
+                cs.add(cq)
+        if len(cs) == 1:
+            caller = self.fn(next(iter(cs)))
+            if caller is not None and caller.qname.rsplit('::', 1)[0] == base.qname.rsplit('::', 1)[0]:
+                return self.home(caller, depth + 1)
+        return base
+
     def normalised(self, fn):
         """`fn` with the private helpers that did not exist in the pinned tree (rules/anchors.json) and are not recognised
         renames spliced in: what a rule anchored on `fn` looked at before somebody extracted a method from it.  Identity
